@@ -105,6 +105,10 @@ fn experiments() -> Vec<Exp> {
             v.push(Exp::Uniform { container, len: 9000 });
         }
     }
+    for via_generator in [false, true] {
+        v.push(Exp::RandomBits { p: Some(1e-12), via_generator, len: 1 << 20 });
+        v.push(Exp::RandomBits { p: Some(1.0 - 1e-12), via_generator, len: 1 << 20 });
+    }
     for len in [257usize, 1000, 5000] {
         v.push(Exp::RandomBits { p: None, via_generator: false, len });
         v.push(Exp::RandomBits { p: Some(0.3), via_generator: true, len });
@@ -376,6 +380,9 @@ fn run_experiment(exp: &Exp, trials: u64, seed: u64) -> Option<Vec<Cell_>> {
             let len = *len;
             let prob = p.unwrap_or(0.5);
             let (mut total, mut first, mut last) = (0u64, 0u64, 0u64);
+            // probabilities far below the resolution of a 24-bit coin (or that far from 1): ~1.3 * 10^8 bits in
+            // all, whatever the tier (a handful of contrary bits is then decisive)
+            let trials = if prob < 1e-6 || prob > 1.0 - 1e-6 { (1u64 << 27) / len.max(1) as u64 } else { trials };
             for _ in 0..trials {
                 let b: Bitstring = match (p, via_generator) {
                     (None, _) => Bitstring::random(len, &mut rng),
